@@ -39,7 +39,8 @@ class Contract:
                  modifies=None, calls=None, globals=None, props=(), yields=None, is_property=False, cls=None,
                  local_types=None, axioms=(), spec_env=None, pre_raises=None, lemmas=None, frame_objects=("self",),
                  raise_post=None, notes="", truthy_of=None, structural_eq=False, raises_type=None, trusted=False,
-                 drop_decorators=(), strict_sorts=True, cases=None, lets=None, concrete_env=None, no_monitor=False):
+                 drop_decorators=(), strict_sorts=True, cases=None, lets=None, concrete_env=None, no_monitor=False, flat=None):
+        self.flat = dict(flat or {})
         self.concrete_env = dict(concrete_env or {})
         self.no_monitor = no_monitor
         self.lets = dict(lets or {})
